@@ -184,4 +184,41 @@ theorem load_header (k n occ : Nat) (hk : k < 2 ^ 32) (ho : occ < 2 ^ 64) (body 
   simp [magic, hk', ho']
   rw [if_neg (by omega)]
   cases readTables n body <;> rfl
+/-! ### the header and the records against the format description -/
+
+theorem header_eq (g : G) (hn : g.tables.length ≤ 255) :
+    g.header = Khmer.fileHeader g.ksize g.tables.length g.occupied := by
+  have : g.tables.length % 256 = g.tables.length := by omega
+  simp [G.header, Khmer.fileHeader, magic, u32le_eq, u64le_eq, this]
+
+theorem records_eq (ts : List Table) (h : ∀ t ∈ ts, t.WF) :
+    ts.flatMap Table.record =
+      (ts.map (fun t => (t.size, t.get))).flatMap (fun t => Khmer.tableRecord t.1 (Khmer.tableData t.1 t.2)) := by
+  induction ts with
+  | nil => rfl
+  | cons t ts ih =>
+    simp only [List.flatMap_cons, List.map_cons, ih (fun u hu => h u (by simp [hu]))]
+    simp [Table.record, Khmer.tableRecord, u64le_eq, dataBytes_eq_tableData t (h t (by simp))]
+
+theorem records_as_pairs (ts : List Table) :
+    ts.flatMap Table.record = (ts.map (fun t => (t.size, t.dataBytes))).flatMap (fun r => le r.1 8 ++ r.2) := by
+  induction ts with
+  | nil => rfl
+  | cons t ts ih => simp [List.flatMap_cons, ih, Table.record]
+
+/-- a fresh nodegraph of any size vector is well formed -/
+theorem new_wf (sizes : List Nat) (k : Nat) (hn : sizes.length ≤ 255) (hk : k < 2 ^ 32)
+    (hs : ∀ s ∈ sizes, s < 2 ^ 64) : (G.new sizes k).WF := by
+  refine ⟨by simpa [G.new] using hn, hk, by simp [G.new], ?_⟩
+  intro t ht
+  simp only [G.new, List.mem_map] at ht
+  obtain ⟨s, hsm, rfl⟩ := ht
+  refine ⟨hs s hsm, by simp [Table.new], ?_, ?_⟩
+  · intro x hx
+    simp only [Table.new, List.mem_replicate] at hx
+    rw [hx.2]; exact Nat.two_pow_pos 32
+  · intro b _
+    simp [Table.get, Table.new, List.getD_eq_getElem?_getD, List.getElem?_replicate]
+    split <;> simp
+
 end NG
